@@ -78,14 +78,16 @@ def gen_programs(rng, tier):
                 c = rng.pick("RW")
             if rng.chance(1, 4):
                 c = c.lower()
+            elif c == "R" and rng.chance(1, 6):
+                c = "N"          # a read section taken while holding a read lock on an unrelated Resource
             p += c
         progs.append(p)
     return ",".join(progs)
 
 
 RENDEZVOUS = ["Rb,Rb", "Rb,Rb,Rb", "Rb,Rb,R", "H,Rb,Rb", "H,Rb,Rb,Rb", "HW,Rb,Rb", "HR,Rb,Rb", "H,Rb,Rb,Rb,Rb"]
-DFS_CONFIGS_QUICK = ["W,R,R", "W,R,W", "R,W,R", "W,W,R", "R,R,W"]
-DFS_CONFIGS_THOROUGH = DFS_CONFIGS_QUICK + ["W,R,R,W", "R,W,R,W", "W,R,W,R", "WR,R,W", "RW,W,R", "H,Rb,Rb", "W,RR,R", "R,R,R"]
+DFS_CONFIGS_QUICK = ["W,R,R", "W,R,W", "R,W,R", "W,W,R", "R,R,W", "R,W,N"]
+DFS_CONFIGS_THOROUGH = DFS_CONFIGS_QUICK + ["R,W,N", "W,R,R,W", "R,W,R,W", "W,R,W,R", "WR,R,W", "RW,W,R", "H,Rb,Rb", "W,RR,R", "R,R,R"]
 
 
 # ------------------------------------------------------------------ trace analysis
@@ -107,6 +109,11 @@ def canonical_steps(events):
     deferred = {}
     for t in events:
         k = t[0]
+        # only the Resource under test (mutex m0, condition variable c1; see rwp_harness.cpp) takes part in the replay
+        if k in ("lock", "unlock") and len(t) > 2 and t[2] != "m0":
+            continue
+        if k in ("park", "notify") and len(t) > 2 and t[2] != "c1":
+            continue
         if k == "lock":
             holding_mutex[t[1]] = True
         elif k == "unlock":
